@@ -14,6 +14,7 @@ CLAUSES = {
     "14": "completion callbacks nested deeper than MaxCallbackDispatch + 1",
     "15": "the dispatch depth accounting did not return to its base value",
     "16": "an expired timer present in the poll batch did not fire",
+    "18": "an armed timer is more than 30 ms overdue after a poll and has not fired (its callback is lost)",
     "17": "scheduling from inside the callback of a live repeating timer did not fail (and ends the repetition without Cancel or Close)",
     "21": "Pending() differs from the number of operations in flight (deferred ops + armed timers + queued posts)",
     "22": "PollOne dispatched handlers but reported a non-positive count",
@@ -41,7 +42,17 @@ def attrs(o, case):
         target = kinds.get(f[2], "-")
     elif f[0] in ("cancel", "close", "peer") and len(f) > 1:
         target = kinds.get(f[1], "-")
-    return {"op": f[0], "target_kind": target}
+    # a handler program that re-issues an operation on a regular file: the unbounded nesting of the known finding can then
+    # surface at whichever operation runs that handler
+    reg_reissue = False
+    for l in case[1]:
+        g = l.split()
+        if g[0] == "prog":
+            for act in " ".join(g[2:]).split(";"):
+                h = act.split()
+                if len(h) > 2 and h[0] == "start" and kinds.get(h[2]) == "reg":
+                    reg_reissue = True
+    return {"op": f[0], "target_kind": target, "reg_reissue": reg_reissue}
 
 
 def rd(i):
@@ -104,6 +115,9 @@ def timer_cases(q):
     """C04: timers cancelled / closed / re-scheduled from callbacks of other timers ready in the same batch"""
     cases = []
     T = ["timer 0", "timer 1"]
+    # two timers expire together; the first handler cancels the second and re-arms it for soon: it has to fire then
+    cases.append(("case", T + ["prog 30 tcancel 1 ; sched 1 once 30 31", "sched 0 once 20 30", "sched 1 once 20 31", "sleep 40", "pollone", "sleep 70", "pollone", "pollone", "tcancel 1"]))
+    cases.append(("case", T + ["prog 30 tcancel 1 ; sched 1 rep 30 31", "sched 0 once 20 30", "sched 1 once 20 31", "sleep 40", "pollone", "sleep 70", "pollone", "sleep 70", "pollone", "tcancel 1"]))
     # two timers expire together; the first handler cancels the second and re-arms it far in the future
     cases.append(("case", T + ["prog 30 tcancel 1 ; sched 1 once 400 31", "sched 0 once 20 30", "sched 1 once 20 31", "sleep 40", "pollone", "pollone", "tcancel 1"]))
     cases.append(("case", T + ["prog 31 tcancel 0 ; sched 0 once 400 30", "sched 0 once 20 30", "sched 1 once 20 31", "sleep 40", "pollone", "pollone", "tcancel 0"]))
@@ -263,6 +277,12 @@ def batch_cases():
     cases.append(("case", setup(["sock"]) + ["start read 0 4 10", "depth 32", "start write 0 4 20", "depth 0", "pollone", "peer 0 data 4", "pollone", "pollone"]))
     cases.append(("case", setup(["sock"]) + ["start read 0 4 10", "depth 32", "start write 0 4 20", "depth 0", "cancel 0", "pollone"]))
     cases.append(("case", setup(["sock"]) + ["start read 0 4 10", "depth 32", "start write 0 4 20", "depth 0", "close 0", "pollone"]))
+    # the descriptor is closed underneath an object (and its number reused by something that cannot be polled): registrations
+    # fail while the other direction is in flight; nothing may stay counted once the object is cancelled or closed
+    for tail in (["close 0"], ["cancel 0", "close 0"], ["pollone", "close 0"]):
+        cases.append(("case", setup(["sock"]) + ["start read 0 4 10", "peer 0 kill", "depth 32", "start write 0 4 20", "depth 0"] + tail + ["pollone"]))
+        cases.append(("case", setup(["sock"]) + ["depth 32", "start write 0 4 20", "depth 0", "peer 0 kill", "depth 32", "start read 0 4 10", "depth 0"] + tail + ["pollone"]))
+        cases.append(("case", setup(["sock"]) + ["peer 0 kill", "start read 0 4 10", "start write 0 4 20", "depth 32", "start read 0 4 10", "depth 0"] + tail + ["pollone"]))
     # nothing ready: timeout, not success
     cases.append(("case", setup(["sock"]) + ["pollone", "start read 0 4 10", "pollone", "cancel 0", "pollone"]))
     return cases
